@@ -148,6 +148,128 @@ func timerScenario(prog []timerOp, maxRetrans uint, rtoMax float64) *Scenario {
 	}
 }
 
+// ackObserver records the delayed-ack expiries.
+type ackObserver struct {
+	m     *Sim
+	fired []time.Duration
+}
+
+func (o *ackObserver) onAckTimeout() {
+	o.m.mu.Lock()
+	o.fired = append(o.fired, o.m.S.Now())
+	o.m.mu.Unlock()
+}
+
+// ackTimerScenario: the delayed-ack timer object under the same start/stop/close programs,
+// with stops placed exactly on the 200 ms expiry instant.
+func ackTimerScenario(prog []timerOp) *Scenario {
+	return &Scenario{
+		Name:    "acktimer",
+		Horizon: 60 * time.Second,
+		Setup:   func(m *Sim) { m.S.SuspendTimers = true },
+		Body: func(m *Sim) {
+			obs := &ackObserver{m: m}
+			tm := newAckTimer(obs)
+			type span = struct{ from, to time.Duration }
+			var spans []span
+			running, closed := false, false
+			endSpan := func() {
+				if running {
+					spans[len(spans)-1].to = m.S.Now()
+				}
+				running = false
+			}
+			for _, op := range prog {
+				if d := op.at - m.S.Now(); d > 0 {
+					m.Sleep(d)
+				}
+				// a span ends by itself when its expiry has been delivered
+				if running && m.S.Now() > spans[len(spans)-1].from+ackInterval {
+					spans[len(spans)-1].to = spans[len(spans)-1].from + ackInterval
+					running = false
+				}
+				switch op.op {
+				case "start":
+					if tm.start() {
+						if running {
+							// started although our model says running: the expiry of the previous
+							// span was delivered in this very instant
+							spans[len(spans)-1].to = m.S.Now()
+						}
+						if !closed {
+							running = true
+							spans = append(spans, span{m.S.Now(), -1})
+						} else {
+							m.viol = append(m.viol, Violation{"acktimer.closed", "start succeeded on a closed timer"})
+						}
+					}
+				case "stop":
+					tm.stop()
+					endSpan()
+				case "close":
+					tm.close()
+					endSpan()
+					closed = true
+				}
+				m.S.Yield()
+			}
+			m.Sleep(2 * time.Second)
+			tm.close()
+			m.Sleep(time.Second)
+			m.mu.Lock()
+			defer m.mu.Unlock()
+			// every span that lasted longer than the interval fires exactly once, at from+200ms;
+			// a span stopped exactly at its expiry instant may or may not fire
+			var must, may []time.Duration
+			for _, sp := range spans {
+				exp := sp.from + ackInterval
+				switch {
+				case sp.to < 0 || sp.to > exp:
+					must = append(must, exp)
+				case sp.to == exp:
+					may = append(may, exp)
+				}
+			}
+			got := append([]time.Duration(nil), obs.fired...)
+			for _, w := range must {
+				found := false
+				for i, g := range got {
+					if g == w {
+						got = append(got[:i], got[i+1:]...)
+						found = true
+						break
+					}
+				}
+				if !found {
+					m.viol = append(m.viol, Violation{"acktimer.missing", fmt.Sprintf("the delayed-ack timer started at %v never fired at %v; fired %v (program %v)", w-ackInterval, w, obs.fired, prog)})
+					return
+				}
+			}
+			for _, g := range got {
+				ok := false
+				for i, w := range may {
+					if g == w {
+						may = append(may[:i], may[i+1:]...)
+						ok = true
+						break
+					}
+				}
+				if !ok {
+					m.viol = append(m.viol, Violation{"acktimer.spurious", fmt.Sprintf("unexpected delayed-ack expiry at %v; fired %v (program %v)", g, obs.fired, prog)})
+					return
+				}
+			}
+			m.obs = append(m.obs, fmt.Sprintf("%v", obs.fired))
+		},
+		Final: func(m *Sim, x *Exec) {
+			generalVerdicts(m, x, true)
+			if len(x.ArmedTimers) > 0 {
+				m.Failf("timer-leak", "ack timer still armed after close")
+			}
+		},
+	}
+}
+
 func calcBackoff(rto float64, n uint, rtoMax float64) float64 {
 	if rtoMax == 0 {
 		rtoMax = 60000
@@ -547,6 +669,25 @@ func c19EndToEnd(j *Job) {
 			if j.capped() {
 				return
 			}
+		}
+	}
+	ms := time.Millisecond
+	aprogs := [][]timerOp{
+		{{0, "start"}},
+		{{0, "start"}, {200 * ms, "stop"}, {200 * ms, "start"}},
+		{{0, "start"}, {200 * ms, "stop"}, {300 * ms, "start"}, {500 * ms, "stop"}, {600 * ms, "start"}},
+		{{0, "start"}, {100 * ms, "stop"}, {100 * ms, "start"}, {300 * ms, "stop"}, {300 * ms, "start"}},
+		{{0, "start"}, {50 * ms, "start"}, {200 * ms, "close"}, {200 * ms, "start"}},
+		{{0, "start"}, {199 * ms, "stop"}, {200 * ms, "start"}, {400 * ms, "stop"}, {400 * ms, "start"}, {600 * ms, "stop"}, {700 * ms, "start"}},
+	}
+	for pi, prog := range aprogs {
+		d := 2
+		if j.Thorough() {
+			d = 3
+		}
+		j.Explore(fmt.Sprintf("TA/prog%d", pi), ackTimerScenario(prog), Budget{D: d}, nil)
+		if j.capped() {
+			return
 		}
 	}
 	// (2) end to end
